@@ -45,6 +45,21 @@ class Table:
 class Database:
     def __init__(self, tables):
         self.tables = tables
+        self.saved = None     # rows as they were when the open transaction began (None: autocommit)
+
+    def begin(self):
+        import copy
+        self.saved = {n: copy.deepcopy(t.rows) for n, t in self.tables.items()}
+
+    def commit(self):
+        self.saved = None
+
+    def close(self):
+        """the connection is closed: an open transaction is rolled back"""
+        if self.saved is not None:
+            for n, rows in self.saved.items():
+                self.tables[n].rows = rows
+            self.saved = None
 
 
 def schema_from_source(src_text):
@@ -213,7 +228,22 @@ def execute(it, st, db, sql, params):
     s = parse_sql(sql)
     k = s[0]
     st.effects = st.effects + [('sql', k)]
-    if k in ('begin', 'commit', 'rollback', 'pragma', 'create_table', 'create_index'):
+    if k == 'begin':
+        if db.saved is not None:
+            return err(rusqlite_err('SqliteFailure'))   # "cannot start a transaction within a transaction"
+        db.begin()
+        return ok(z3.BitVecVal(0, 64))
+    if k == 'commit':
+        if db.saved is None:
+            return err(rusqlite_err('SqliteFailure'))   # "cannot commit - no transaction is active"
+        db.commit()
+        return ok(z3.BitVecVal(0, 64))
+    if k == 'rollback':
+        if db.saved is None:
+            return err(rusqlite_err('SqliteFailure'))
+        db.close()
+        return ok(z3.BitVecVal(0, 64))
+    if k in ('pragma', 'create_table', 'create_index'):
         return ok(z3.BitVecVal(0, 64))
     if k == 'insert':
         _, tn, cols, conflict = s
